@@ -122,7 +122,9 @@ def hit_case(draw):
     P = P - (w / w.sum()) @ P
     nq = draw(st.integers(1, 5))
     B = draw(gens.array((nq, d), -3.0, 3.0, styles=("raw", "int")))
-    c.update(P=P.tolist(), B=B)
+    # length of the query vectors and absolute size of the cloud: the boundary multiple is alpha(s b) = alpha(b) / s for any s > 0
+    c.update(P=P.tolist(), B=B, bscale=draw(st.sampled_from([1.0, 1.0, 1e-3, 1e-6, 1e-9, 1e-12, 1e3, 1e6])),
+             pscale=draw(st.sampled_from([1.0, 1.0, 1e-6, 1e-3, 1e3])))
     return c
 
 
@@ -133,6 +135,8 @@ def body_hit(case):
     B = B[np.linalg.norm(B, axis=1) > 1e-3]
     if B.shape[0] == 0:
         return ["zero-vectors-only"]
+    bscale, pscale = float(case.get("bscale", 1.0)), float(case.get("pscale", 1.0))
+    P = P * pscale
     hull = _hull(P)
     eq = hull.equations
     if float(np.max(eq[:, -1])) > -1e-6 * float(np.max(P.max(0) - P.min(0))):
@@ -149,7 +153,15 @@ def body_hit(case):
           observed=dict(alpha=alpha.tolist()))
     check(np.all(np.abs(H - alpha[:, None] * B) <= 1e-12 * (np.abs(H) + 1e-300) + 1e-300), "hit:B_with_P", "B_with_P != alpha * B")
     # independent: LP  max t  s.t.  t*b in hull(P)
-    for b, a in zip(B[:2], alpha[:2]):
+    if bscale != 1.0:
+        with calling("alpha_for_B_with_P / B_with_P (rescaled vectors)"):
+            with np.errstate(all="ignore"):
+                alpha_s = np.asarray(dreye.alpha_for_B_with_P(B * bscale, eq))
+                H_s = np.asarray(dreye.B_with_P(B * bscale, eq))
+        check(np.all(np.isfinite(alpha_s)) and np.all(np.abs(alpha_s * bscale - alpha) <= 1e-9 * alpha), "hit:not-scale-covariant",
+              f"alpha(s b) * s = {(alpha_s * bscale).tolist()} but alpha(b) = {alpha.tolist()} (s = {bscale})")
+        check(np.all(np.abs(H_s - H) <= 1e-9 * span), "hit:not-scale-covariant", f"B_with_P(s b) differs from B_with_P(b) for s = {bscale}")
+    for b, a in (zip(B[:2], alpha[:2]) if pscale == 1.0 else ()):       # the LP's absolute tolerances assume a cloud of order 1
         k = P.shape[0]
         c = np.zeros(k + 1)
         c[-1] = -1.0
@@ -157,7 +169,7 @@ def body_hit(case):
         r = _linprog(c, A_eq=A_eq, b_eq=np.concatenate([np.zeros(P.shape[1]), [1.0]]), bounds=[(0, None)] * (k + 1))
         if r.status == 0:
             check(abs(r.x[-1] - a) <= 1e-7 * max(1.0, a), "hit:alpha-vs-lp", f"alpha {a!r} but the LP boundary multiple is {r.x[-1]!r}")
-    return [f"d{P.shape[1]}", case["kind"], "nt:boundary-hit"]
+    return [f"d{P.shape[1]}", case["kind"], "nt:boundary-hit", f"bscale={bscale:g}", f"pscale={pscale:g}"]
 
 
 # ------------------------------------------------------------------------------------------------
